@@ -741,6 +741,11 @@ func (e *specEnv) evalCall(s *SExpr) T {
 	if strings.HasPrefix(name, "wrap_") && len(s.Args) == 1 {
 		return mkMath(app(name, e.eval(s.Args[0]).S))
 	}
+	if name == "rngSeed" && len(s.Args) == 1 {
+		// rngSeed(r): the seed of the *rand.Rand r (library model: rand.New(rand.NewSource(s)) has seed s)
+		x.d.declareFun("rngseed", []string{"Int"}, "Int")
+		return mkMath(app("rngseed", e.eval(s.Args[0]).S))
+	}
 	if name == "rngFloat" && len(s.Args) == 2 {
 		// rngFloat(seed, k): the k-th Float64 draw of a generator seeded with seed
 		x.d.declareFun("rng_float", []string{"Int", "Int"}, "Flt")
